@@ -34,6 +34,8 @@ func checkC16(r *Report, p *Program) {
 	r10_1(r, p, syncEntries(r, p, "R10.1"))
 	selectorBuildTable(r, p, "R16.8")
 	finalizerNameInjective(r, p, "R16.9")
+	setterGetsOwnMap(r, p, "R16.10")
+	operandFromTheLoop(r, p, "R16.11")
 }
 
 func r16_1(r *Report, p *Program, e *syncEntry) {
